@@ -4,6 +4,7 @@ import (
 	"fmt"
 	"sort"
 	"strings"
+	"sync/atomic"
 
 	"github.com/gookit/rux"
 )
@@ -32,6 +33,18 @@ func c16Act(c *rux.Context, action string) {
 // c16Uses returns one marker middleware per action - also for actions the
 // controller does not implement.
 func c16Uses() map[string][]rux.HandlerFunc {
+	// half of the calls return the one long-lived map (a controller field / package variable), the
+	// others a fresh literal: registration must treat both as read-only input
+	if atomic.AddInt64(&c16UsesCalls, 1)%2 == 0 {
+		return c16SharedUses
+	}
+	return c16NewUses()
+}
+
+var c16UsesCalls int64
+var c16SharedUses = c16NewUses()
+
+func c16NewUses() map[string][]rux.HandlerFunc {
 	m := map[string][]rux.HandlerFunc{}
 	for _, a := range []string{"Index", "Create", "Store", "Show", "Edit", "Update", "Delete"} {
 		low := strings.ToLower(a)
